@@ -10,3 +10,8 @@ def build(repo, tier, seed):
                      "the identification-line regular expression is an abstract predicate in the VCs; its language is compared with the specified language separately (re implements that regular language on ASCII input)"],
         explanation="C04: CRC loop invariant against the bit-serial CRC-16/ARC definition, __init__ establishes the readout invariant (first '!', data position, calculated CRC), "
                     "is_valid postconditions (i)-(iv) from the property statement, payload/as_bytes contracts, exceptional postconditions")
+
+def fallback(repo, tier, seed):
+    from pyvc import run
+    b = run.rt_call("C04", "bounded_search", {"seed": seed, "n": 150 if tier == "quick" else 2000})
+    return [b if "name" in b else {"name": "bounded_search", "error": b.get("error", b)}]
